@@ -22,7 +22,7 @@ fn agg(data: &[u8]) -> Result<bool, String> {
       return Ok(false);
    }
    let flags = data[0];
-   let filtered = flags & 1 == 1;
+   let filtered: u8 = if flags & 1 == 1 { 1 + ((flags >> 4) & 7) % 6 } else { 0 };
    let wide = flags & 8 == 8;
    let body = &data[3..];
    let xs: Vec<i64> = if wide {
